@@ -131,7 +131,7 @@ def check_proofs(prop: str, thorough: bool) -> dict:
     src = vfile.read_text()
     thms = re.findall(r"^\s*(?:Theorem|Corollary)\s+(\w+)", src, re.M)
     res["theorems"] = thms
-    res["obligations"] = len(thms)
+    res["obligations"] = max(len(thms), len(re.findall(r"^\s*Print Assumptions", src, re.M)))
     cmd = ["timeout", "900", "coqc", "-R", "theories", "DictIO", f"theories/Properties/{prop}.v"]
     res["checker_cmd"] = "cd /verif/coq && make (full .vo build) && " + " ".join(cmd[2:])
     p = subprocess.run(cmd, cwd=COQ, capture_output=True, text=True, check=False)
@@ -243,11 +243,11 @@ def finish(ctx: Ctx, proofs: dict) -> int:
     for f in ctx.oracle_failures:
         k = match_known(ctx, f)
         if k is None:
-            f2 = shrink_failure(ctx, f)
+            f2 = shrink_failure(ctx, f) if fresh < 3 else f
             k = match_known(ctx, f2)
             if k is None:
                 fresh += 1
-                if fresh <= 5:
+                if fresh <= 3:
                     path = write_replay(ctx, "oracle", f2)
                     if str(path) not in seen_replays:
                         seen_replays.add(str(path))
